@@ -1,6 +1,11 @@
 import LinOp.C10.ProofsPSD
 import LinOp.C10.ProofsLoop
 import LinOp.C10.ProofsPrecond
+import LinOp.C10.ProofsLogdet
+import LinOp.C10.ProofsSPD
+import LinOp.C10.ProofsErr
+import LinOp.C10.ProofsPerm
+import LinOp.C10.ProofsTie
 import Mathlib.Analysis.Real.Sqrt
 import LinOp.Generated.C10Consts
 /-!
@@ -57,6 +62,14 @@ theorem pc_pivot_is_argmax {P : Prim α} {A : Mat α n n} (hP : SqrtLaw P) (hA :
   intro j hj
   rw [hp, ← hinv.diag j hj, ← hinv.diag _ (pivotPos_ge s ⟨m, hm⟩)]
   exact (argmaxFrom_spec (fun j => s.diag.get (s.perm.get j)) ⟨m, hm⟩).2 j hj
+
+/-- **Ties go to the first position** (as `torch.max` does): every unpivoted position before the chosen one carries a
+strictly smaller tracked diagonal value.  Unconditional. -/
+theorem pc_pivot_first_on_ties (P : Prim α) (A : Mat α n n) (m : Nat) (hm : m < n) (j : Fin n) (h1 : m ≤ j.val)
+    (h2 : j.val < (pivotPos (iter P A m) ⟨m, hm⟩).val) :
+    let s := iter P A m
+    s.diag.get (s.perm.get j) < s.diag.get (s.perm.get (pivotPos s ⟨m, hm⟩)) :=
+  argmaxFrom_first (fun j => (iter P A m).diag.get ((iter P A m).perm.get j)) ⟨m, hm⟩ j h1 h2
 
 /-- **The tracked diagonal is the residual diagonal** on every index not yet pivoted. -/
 theorem pc_diag_tracks_residual {P : Prim α} {A : Mat α n n} (hP : SqrtLaw P) (hA : Symm A) (m : Nat) (hm : m ≤ n)
@@ -137,6 +150,16 @@ theorem pc_stop_rule (P : Prim α) (As : List (Mat α n n)) (rank : Nat) (tol : 
   have h := run_spec P As rank tol hrank hn
   exact ⟨fun t h1 h2 => h.continued t (Nat.zero_le _) h1 h2, fun hlt => not_lt.1 (h.stopped hlt (h.pos rfl))⟩
 
+/-- **The error the stop rule tests is the residual trace relative to the largest diagonal entry**: after iteration `m`
+(`m + 1 < n`) `errors` is the 1-norm of `diag(A − L Lᵀ)` over the unpivoted indices (the pivoted ones carry 0, see
+`pc_pivot_rows_zero`) divided by `orig_error`, and `orig_error` is the largest diagonal entry of `A`. -/
+theorem pc_err_is_residual_trace {P : Prim α} {A : Mat α n n} (hP : SqrtLaw P) (hA : Symm A) (m : Nat) (hm : m + 1 < n)
+    (hpos : PivotsPos P A (m + 1)) :
+    let s := iter P A (m + 1)
+    s.err = ((tailPos n (m + 1)).map fun j => |resid A s.rows (s.perm.get j) (s.perm.get j)|).sum / origError A ∧
+    (∀ i, A i i ≤ origError A) ∧ ∃ i, origError A = A i i :=
+  ⟨iter_err hP hA m hm hpos, origError_spec A (by omega)⟩
+
 /-- **On a positive-definite input every pivot is positive**, so the hypotheses `PivotsPos` of the theorems above hold
 automatically: for symmetric positive-definite `A` (any `n`), after any `m ≤ n` iterations the pivots form a permutation, the
 tracked diagonal is the residual diagonal, the residual is PSD and vanishes on the pivot rows and columns, and is zero at `m = n`. -/
@@ -158,7 +181,7 @@ end pc
 
 /-- The hypotheses are satisfiable: the real square root meets `SqrtLaw`, and `[[4,2],[2,5]]` is symmetric positive definite. -/
 noncomputable example : ∃ (P : Prim ℝ) (A : Mat ℝ 2 2), SqrtLaw P ∧ Symm A ∧ PD A := by
-  refine ⟨⟨Real.sqrt, Real.log⟩, fun i j => if i = j then (if i.val = 0 then 4 else 5) else 2, ?_, ?_, ?_⟩
+  refine ⟨⟨Real.sqrt, fun _ => 0⟩, fun i j => if i = j then (if i.val = 0 then 4 else 5) else 2, ?_, ?_, ?_⟩
   · intro x hx; exact ⟨Real.mul_self_sqrt hx, Real.sqrt_nonneg x⟩
   · intro i j; by_cases h : i = j
     · subst h; rfl
@@ -210,7 +233,62 @@ theorem precond_const_symm (q : Mat α n k) (s : α) (i j : Fin n) :
       simp [h, h']
   · apply Finset.sum_congr rfl; intro l _; ring
 
+/-- **Non-constant diagonal: the closure applies exactly `(L Lᵀ + D)⁻¹`** (QR contract on `cat(L / √d, I)`, `√dᵢ² = dᵢ ≠ 0`). -/
+theorem precond_nonconst_inverse (P : Prim α) (L : Mat α n k) (d : Fin n → α) (Q : Mat α (n + k) k) (R : Mat α k k)
+    (x : Mat α n c) (hs : ∀ i, P.sqrt (d i) * P.sqrt (d i) = d i) (hs0 : ∀ i, d i ≠ 0)
+    (hqr : Mat.mul Q R = qrInputNonconst P L d)
+    (horth : Mat.mul (Mat.transpose Q) Q = fun i j => if i = j then 1 else 0) :
+    Mat.mul (precondLt L d) (closureNonconst (qCacheNonconst P Q d) d x) = x :=
+  nonconst_inverse P L d Q R x hs hs0 hqr horth
+
+/-- **Matrix determinant lemma behind the log-determinant** (any field): `det(L Lᵀ + s I_n) · s^k = s^n · det(R)²`
+from the block form of the QR contract. -/
+theorem precond_det_const (L Q1 : Matrix (Fin n) (Fin k) α) (Q2 R : Matrix (Fin k) (Fin k) α) (s cc : α)
+    (hc : cc * cc = s) (hs0 : s ≠ 0) (h1 : Q1 * R = L) (h2 : Q2 * R = cc • (1 : Matrix (Fin k) (Fin k) α))
+    (h3 : Q1.transpose * Q1 + Q2.transpose * Q2 = 1) :
+    Matrix.det (L * L.transpose + s • (1 : Matrix (Fin n) (Fin n) α)) * s ^ k = s ^ n * Matrix.det R ^ 2 :=
+  det_const_blocks L Q1 Q2 R s cc hc hs0 h1 h2 h3
+
 end precond
+
+section precond_order
+variable {α : Type} [Field α] [LinearOrder α] [IsStrictOrderedRing α] {n k : Nat}
+
+/-- **Constant diagonal: the closure is positive definite**: `xᵀ closure(x) > 0` for every `x ≠ 0` (with `precond_const_symm`:
+symmetric positive definite). -/
+theorem precond_spd (P : Prim α) (L : Mat α n k) (s : α) (Q : Mat α (n + k) k) (R : Mat α k k)
+    (hs : P.sqrt s * P.sqrt s = s) (hs0 : 0 < s) (hqr : Mat.mul Q R = qrInputConst P L s)
+    (horth : Mat.mul (Mat.transpose Q) Q = fun i j => if i = j then 1 else 0) (x : Fin n → α) (hx : x ≠ 0) :
+    0 < ∑ i, x i * closureConst (qCacheConst Q) s (fun a (_ : Fin 1) => x a) i 0 :=
+  const_posdef P L s Q R hs hs0 hqr horth x hx
+
+end precond_order
+
+/-- **Constant diagonal: `_precond_logdet_cache` is `log det(L Lᵀ + s I)`** — `2 Σ log|Rᵢᵢ| + (n − k) log s` (ℝ, QR contract,
+`R` upper triangular, `s > 0`). -/
+theorem precond_logdet_const {n k : Nat} (L : Mat ℝ n k) (s : ℝ) (Q : Mat ℝ (n + k) k) (R : Mat ℝ k k)
+    (hs : 0 < s) (hqr : Mat.mul Q R = qrInputConst ⟨Real.sqrt, Real.log⟩ L s)
+    (horth : Mat.mul (Mat.transpose Q) Q = fun i j => if i = j then 1 else 0)
+    (hR : ∀ i j : Fin k, j < i → R i j = 0) :
+    logdetConst ⟨Real.sqrt, Real.log⟩ R s ((n : ℝ) - k) =
+      Real.log (Matrix.det (precondLt L (fun _ => s) : Matrix (Fin n) (Fin n) ℝ)) :=
+  logdet_const L s Q R hs hqr horth hR
+
+/-- **Non-constant diagonal: `_precond_logdet_cache` is `log det(L Lᵀ + D)`** — `2 Σ log|Rᵢᵢ| − Σ log(1/dᵢ)`. -/
+theorem precond_logdet_nonconst {n k : Nat} (L : Mat ℝ n k) (d : Fin n → ℝ) (Q : Mat ℝ (n + k) k) (R : Mat ℝ k k)
+    (hd : ∀ i, 0 < d i) (hqr : Mat.mul Q R = qrInputNonconst ⟨Real.sqrt, Real.log⟩ L d)
+    (horth : Mat.mul (Mat.transpose Q) Q = fun i j => if i = j then 1 else 0)
+    (hR : ∀ i j : Fin k, j < i → R i j = 0) :
+    logdetNonconst ⟨Real.sqrt, Real.log⟩ R d =
+      Real.log (Matrix.det (precondLt L d : Matrix (Fin n) (Fin n) ℝ)) :=
+  logdet_nonconst L d Q R hd hqr horth hR
+
+/-! ### `utils/permutation.py` -/
+
+/-- **`inverse_permutation` inverts every permutation** (any `n`), and `apply_permutation` is plain row/column selection. -/
+theorem inverse_permutation_spec {n : Nat} (h : 0 < n) (p : Fin n → Fin n) (hp : Function.Bijective p) :
+    (∀ i, inversePermutation h p (p i) = i) ∧ (∀ k, p (inversePermutation h p k) = k) :=
+  inversePermutation_spec h p hp
 
 /-- The QR contract of `precond_const_inverse` is satisfiable: `L = [3]`, `s = 16`: `[3; 4] = [3/5; 4/5]·[5]`. -/
 example : ∃ (P : Prim Rat) (Q : Mat Rat (1 + 1) 1) (R : Mat Rat 1 1),
